@@ -708,6 +708,61 @@ def any_guard_to_loops_inplace(root) -> int:
     return done
 
 
+def list_iadd_to_append_inplace(root) -> int:
+    """`xs += [a, b]` on a local that the function only ever binds to a list display / list comprehension / list(...) is
+    `xs.append(a); xs.append(b)` — the spelling the analysed code (and therefore the rules) use."""
+    done = 0
+    for fn in [x for x in ast.walk(root) if isinstance(x, (ast.FunctionDef, ast.AsyncFunctionDef))]:
+        binds = {}
+        for n in ast.walk(fn):
+            if isinstance(n, ast.Assign):
+                for t in n.targets:
+                    if isinstance(t, ast.Name):
+                        binds.setdefault(t.id, []).append(n.value)
+                    elif isinstance(t, ast.Tuple) and isinstance(n.value, ast.Tuple) and len(t.elts) == len(n.value.elts):
+                        for a, b in zip(t.elts, n.value.elts):
+                            if isinstance(a, ast.Name):
+                                binds.setdefault(a.id, []).append(b)
+                    else:
+                        for x in ast.walk(t):
+                            if isinstance(x, ast.Name) and isinstance(x.ctx, ast.Store):
+                                binds.setdefault(x.id, []).append(None)
+            elif isinstance(n, (ast.For, ast.comprehension)):
+                for x in ast.walk(n.target):
+                    if isinstance(x, ast.Name):
+                        binds.setdefault(x.id, []).append(None)
+            elif isinstance(n, (ast.With, ast.ExceptHandler, ast.NamedExpr, ast.AnnAssign)):
+                for x in ast.walk(n):
+                    if isinstance(x, ast.Name) and isinstance(x.ctx, ast.Store):
+                        binds.setdefault(x.id, []).append(None)
+        params = {a.arg for a in fn.args.args + fn.args.kwonlyargs + fn.args.posonlyargs}
+
+        def is_list(v):
+            return isinstance(v, (ast.List, ast.ListComp)) or (isinstance(v, ast.Call) and isinstance(v.func, ast.Name) and v.func.id in ("list", "sorted"))
+
+        lists = {k for k, vs in binds.items() if k not in params and vs and all(v is not None and is_list(v) for v in vs)}
+        for holder in list(ast.walk(fn)):
+            for f in ("body", "orelse", "finalbody"):
+                lst = getattr(holder, f, None)
+                if not (isinstance(lst, list) and lst and isinstance(lst[0], ast.stmt)):
+                    continue
+                i = 0
+                while i < len(lst):
+                    st = lst[i]
+                    if isinstance(st, ast.AugAssign) and isinstance(st.op, ast.Add) and isinstance(st.target, ast.Name) and st.target.id in lists \
+                            and isinstance(st.value, ast.List) and st.value.elts and not any(isinstance(e, ast.Starred) for e in st.value.elts):
+                        new = [ast.copy_location(ast.Expr(value=ast.Call(func=ast.Attribute(value=ast.Name(id=st.target.id, ctx=ast.Load()), attr="append", ctx=ast.Load()),
+                                                                         args=[e], keywords=[])), st) for e in st.value.elts]
+                        lst[i:i + 1] = new
+                        i += len(new)
+                        done += 1
+                    else:
+                        i += 1
+    if done:
+        ast.fix_missing_locations(root)
+    return done
+
+
 def extend_comprehension_to_loop_inplace(root) -> int:
     """the statement `R.extend(E for a in A if C)` (generator or list comprehension, any number of for clauses) is the loop nest
     `for a in A: if C: R.append(E)`.  Not applied when a comprehension variable is also a name of the enclosing function."""
